@@ -1401,7 +1401,7 @@ impl<T: Clone> Matrix<T> {
      * ```
      */
     #[track_caller]
-    pub fn insert_row_with<I>(&mut self, row: Row, mut values: I)
+    pub fn insert_row_with<I>(&mut self, row: Row, values: I)
     where
         I: Iterator<Item = T>,
     {
@@ -1410,13 +1410,16 @@ impl<T: Clone> Matrix<T> {
             "Row to insert must be <= to {}",
             self.rows()
         );
-        for column in 0..self.columns() {
-            self.data.insert(
-                self.get_index(row, column),
-                values.next().unwrap_or_else(|| {
-                    panic!("At least {} values must be provided", self.columns())
-                }),
-            );
+        // take the values for the new row out of the iterator before modifying anything, so
+        // that too few values leave this matrix untouched
+        let new_values = values.take(self.columns()).collect::<Vec<T>>();
+        assert!(
+            new_values.len() == self.columns(),
+            "At least {} values must be provided",
+            self.columns()
+        );
+        for (column, value) in new_values.into_iter().enumerate() {
+            self.data.insert(self.get_index(row, column), value);
         }
         self.rows += 1;
     }
